@@ -156,9 +156,9 @@ def _concatenate(lines):
     while index < maxline:
         line = lines[index]
         # Raise an error if line has a whitespace after the line break
+        msg = ("Syntax error line {0}: Whitespace after the line "
+               "continuation character (\\).")
         if re.match(_BAD_CONTINUATION_TRAILING_WHITESPACE, line):
-            msg = ("Syntax error line {0}: Whitespace after the line "
-                   "continuation character (\\).")
             raise FileParseError(msg.format(index + 1))
         while line.endswith('\\'):
             if index == maxline - 1:
@@ -167,6 +167,12 @@ def _concatenate(lines):
                 line = line[:-1]
             else:
                 index += 1
+                # whitespace after the continuation character is also an
+                # error on a continued line
+                if re.match(
+                    _BAD_CONTINUATION_TRAILING_WHITESPACE, lines[index]
+                ):
+                    raise FileParseError(msg.format(index + 1))
                 line = line[:-1] + lines[index]
         clines.append(line)
         index += 1
